@@ -221,6 +221,15 @@ fn verdict(ctx: &Ctx, kind: &str, bytes: Vec<u8>, revoked: bool) -> (bool, Strin
 const EE_SERIAL: u64 = 4711;
 
 fn verdict_under(ctx: &Ctx, issuer: &ResourceCert, kind: &str, bytes: Vec<u8>, revoked: bool, strict: bool) -> (bool, String) {
+    let all = verdicts_under(ctx, issuer, kind, bytes, revoked, strict);
+    // the first route is the one that sees every facet
+    let (_, ok, why) = all.into_iter().next().unwrap();
+    (ok, why)
+}
+
+/// Every public route that decides acceptance of the object, as (route, verdict, reason).  Routes that take no CRL callback are
+/// left out when the object's only flaw is a revoked EE certificate (`revoked`).
+fn verdicts_under(ctx: &Ctx, issuer: &ResourceCert, kind: &str, bytes: Vec<u8>, revoked: bool, strict: bool) -> Vec<(&'static str, bool, String)> {
     let _ = ctx;
     // the callback is a revocation list: with `revoked` it lists the serial number of the embedded EE certificate and nothing else,
     // so its verdict depends on the certificate it is shown
@@ -230,13 +239,30 @@ fn verdict_under(ctx: &Ctx, issuer: &ResourceCert, kind: &str, bytes: Vec<u8>, r
         } else { Ok(()) }
     };
     let b = Bytes::from(bytes);
-    let r: Result<(), String> = match kind {
-        "roa" => Roa::decode(b, strict).map_err(|e| format!("decode: {e}")).and_then(|o| o.process(issuer, strict, crl).map(|_| ()).map_err(|e| format!("validate: {e}"))),
-        "aspa" => Aspa::decode(b, strict).map_err(|e| format!("decode: {e}")).and_then(|o| o.process(issuer, strict, crl).map(|_| ()).map_err(|e| format!("validate: {e}"))),
-        "mft" => Manifest::decode(b, strict).map_err(|e| format!("decode: {e}")).and_then(|o| o.validate_at(issuer, strict, Time::now()).map(|_| ()).map_err(|e| format!("validate: {e}"))),
-        _ => SignedObject::decode(b, strict).map_err(|e| format!("decode: {e}")).and_then(|o| o.validate_at(issuer, strict, Time::now()).map(|_| ()).map_err(|e| format!("validate: {e}"))),
-    };
-    match r { Ok(()) => (true, String::new()), Err(m) => (false, m) }
+    let mut out: Vec<(&'static str, Result<(), String>)> = Vec::new();
+    let dec = |e: &dyn std::fmt::Display| format!("decode: {e}");
+    let val = |e: ValidationError| format!("validate: {e}");
+    match kind {
+        "roa" => out.push(("process", Roa::decode(b, strict).map_err(|e| dec(&e)).and_then(|o| o.process(issuer, strict, crl).map(|_| ()).map_err(val)))),
+        "aspa" => out.push(("process", Aspa::decode(b, strict).map_err(|e| dec(&e)).and_then(|o| o.process(issuer, strict, crl).map(|_| ()).map_err(val)))),
+        "mft" => {
+            out.push(("validate_at", Manifest::decode(b.clone(), strict).map_err(|e| dec(&e)).and_then(|o| o.validate_at(issuer, strict, Time::now()).map(|_| ()).map_err(val))));
+            out.push(("validate", Manifest::decode(b, strict).map_err(|e| dec(&e)).and_then(|o| o.validate(issuer, strict).map(|_| ()).map_err(val))));
+        }
+        _ => {
+            out.push(("process", SignedObject::decode(b.clone(), strict).map_err(|e| dec(&e)).and_then(|o| o.process(issuer, strict, crl).map(|_| ()).map_err(val))));
+            if !revoked {
+                out.push(("validate_at", SignedObject::decode(b.clone(), strict).map_err(|e| dec(&e)).and_then(|o| o.validate_at(issuer, strict, Time::now()).map(|_| ()).map_err(val))));
+                out.push(("validate", SignedObject::decode(b.clone(), strict).map_err(|e| dec(&e)).and_then(|o| o.validate(issuer, strict).map(|_| ()).map_err(val))));
+                // decode_if_type: the caller names the content type it expects
+                let ct = SignedObject::decode(b.clone(), strict).ok().map(|o| o.content_type().clone());
+                if let Some(ct) = ct {
+                    out.push(("decode_if_type+validate", SignedObject::decode_if_type(b, &ct, strict).map_err(|e| dec(&e)).and_then(|o| o.validate(issuer, strict).map(|_| ()).map_err(val))));
+                }
+            }
+        }
+    }
+    out.into_iter().map(|(n, r)| match r { Ok(()) => (n, true, String::new()), Err(m) => (n, false, m) }).collect()
 }
 
 pub fn replay(args: &[String]) {
@@ -256,11 +282,12 @@ pub fn replay(args: &[String]) {
             let r = guarded(|| {
                 let (bytes, revoked) = assemble(&mut ctx, c);
                 let issuer = if c["f"]["cover"] == "ipinherit" { &ctx.issuer_as_only } else { &ctx.issuer };
-                verdict_under(&ctx, issuer, &kind, bytes, revoked, strict)
+                verdicts_under(&ctx, issuer, &kind, bytes, revoked, strict)
             });
             match r {
                 Err(m) => s.violation("panic", m, c.clone()),
-                Ok((got, why)) => {
+                Ok(routes) => for (route, got, why) in routes {
+                    let mode = if route == "process" || route == "validate_at" { mode.clone() } else { format!("{mode}:{route}") };
                     if got != want {
                         let devs: Vec<String> = c["f"].as_object().unwrap().iter().filter(|(_, v)| *v != "ok").map(|(k, v)| format!("{k}={}", v.as_str().unwrap())).collect();
                         if want {
